@@ -409,6 +409,144 @@ def rule_cli_exit(em, rep, rid, listener_classes):
         rep.violation(rid, 'errors.CompilerError.__str__', 'the error text lacks file name, line or column', ce.loc())
 
 
+def rule_main_compiles_every_source(em, rep, rid):
+    rep.rule(rid, 'main() compiles what it is given, and a failure gets out: (1) no path of main() ends normally without having passed '
+                  'the loop over the sources / a call that leads to the pipeline (only "no sources at all" may return early) - whether '
+                  'the output is written may not hang on anything else (time stamps, an existing file); (2) no context manager '
+                  'that is open around the compile call can swallow an exception: a class manager\'s __exit__ returns nothing or a '
+                  'false constant, a generator manager\'s handlers around its yield end by raising, and contextlib.suppress is '
+                  'not used there')
+    main = em.repo.find_func('compiler.main')
+    if main is None:
+        raise AnalysisError('anchor vanished: compiler.main')
+    comp = em.repo.module('compiler')
+    pipes = [v.origin for v in pipeline_function(em)]
+
+    def reaches(g, seen=None):
+        seen = seen if seen is not None else set()
+        if g in pipes:
+            return True
+        if g in seen:
+            return False
+        seen.add(g)
+        return any(reaches(c, seen) for _, cs in em.cg.calls.get(g, ()) for c in cs if c.module is comp)
+
+    def runs(f, call):
+        return any(reaches(c) for c in em.cg.resolve_callable(f, call.func) if c.module is comp)
+    # (1) must pass through
+    calls = [n for n in own_nodes(main.node) if isinstance(n, ast.Call) and runs(main, n)]
+    if not calls:
+        raise AnalysisError('main() does not reach the compile pipeline')
+    loops = set()
+    for c in calls:
+        for p in parents(c):
+            if isinstance(p, (ast.FunctionDef, ast.Lambda)):
+                break
+            if isinstance(p, ast.For):
+                loops.add(p)
+    params = {a.arg for a in main.node.args.args + main.node.args.kwonlyargs}
+    src_names = set()
+    for lp in loops:
+        src_names |= {x.id for x in ast.walk(lp.iter) if isinstance(x, ast.Name) and x.id in params}
+
+    def only_about_sources(test):
+        names = {x.id for x in ast.walk(test) if isinstance(x, ast.Name)} - {'len', 'list', 'tuple', 'bool'}
+        return bool(names) and names <= src_names and not any(isinstance(x, (ast.Call, ast.Attribute)) and
+                                                            not (isinstance(x, ast.Call) and is_name(x.func, 'len')) for x in ast.walk(test))
+
+    def excused(ret_stmt):
+        child = ret_stmt
+        for p in parents(ret_stmt):
+            if isinstance(p, ast.If) and any(child is x for x in p.body) and only_about_sources(p.test):
+                return True
+            if isinstance(p, (ast.FunctionDef, ast.For, ast.While)):
+                return False
+            child = p
+        return False
+    cfg = em.cfg(main)
+
+    def passes(m):
+        if m.kind == 'fornext' and m.stmt in loops:
+            return True
+        return m.kind == 'call' and isinstance(m.ast, ast.Call) and m.ast in calls
+
+    def goal(m):
+        if m.kind == 'return':
+            return not (m.stmt is not None and excused(m.stmt))
+        return m.kind == 'exit' and m.info == 'fall'
+    path = cfg.g.find_path(cfg.entry, goal, avoid=passes, edge_ok=lambda lbl, a, b: lbl not in ('exc', 'throw', 'close'))
+    if path is not None:
+        rep.violation(rid, '%s:path' % main.qname, 'main() can end normally without compiling its sources: the exit status is 0 and the '
+                      'output is not what the library returns for the given text', main.loc(), cfg.describe_path(path))
+    else:
+        rep.ok(rid, '%s:path' % main.qname, 'every normal end of main() lies behind the loop over %s / the compile call (%d call site(s))'
+               % (', '.join(sorted(src_names)) or 'the sources', len(calls)), main.loc(), nontrivial=True)
+    # (2) managers around the compile call
+    sites = []
+    for f in em.cg.reachable([main], with_refs=False, include_nested=False):
+        for n, cs in em.cg.calls.get(f, ()):
+            if f.module is comp and (any(p in cs for p in pipes) or (f is main and n in calls)):
+                sites.append((f, n))
+    seen = set()
+    nman = 0
+    for f, c in sites:
+        for p in parents(c):
+            if isinstance(p, (ast.FunctionDef, ast.Lambda)):
+                break
+            if not isinstance(p, ast.With) or id(p) in seen:
+                continue
+            seen.add(id(p))
+            for item in p.items:
+                e = item.context_expr
+                key = '%s:with %s' % (f.qname, norm(e)[:50])
+                nman += 1
+                if not isinstance(e, ast.Call):
+                    rep.ok(rid, key, 'not a construction here: left to the other rules', f.loc(p))
+                    continue
+                if norm(e.func).split('.')[-1] == 'suppress':
+                    rep.violation(rid, key, 'contextlib.suppress around the compile call: a source that does not compile is passed over '
+                                  'in silence and the exit status is 0', f.loc(p))
+                    continue
+                k = em.cg.constructed_class(f, e)
+                if k is not None:
+                    ex = em.repo.lookup_method(k, '__exit__')
+                    if ex is None:
+                        rep.ok(rid, key, '%s has no __exit__ of its own' % k.name, f.loc(p))
+                        continue
+                    bad = [r for r in own_nodes(ex.node) if isinstance(r, ast.Return) and r.value is not None and
+                           not (isinstance(r.value, ast.Constant) and not r.value.value)]
+                    if bad:
+                        rep.violation(rid, key, '%s.__exit__ can return a true value (%s): the exception of a source that does not compile '
+                                      'is swallowed - no message, exit status 0' % (k.name, norm(bad[0])), ex.loc(bad[0]))
+                    else:
+                        rep.ok(rid, key, '%s.__exit__ returns nothing / a false constant: exceptions pass' % k.name, ex.loc())
+                    continue
+                gs = [g for g in em.cg.resolve_callable(f, e.func) if any(isinstance(y, (ast.Yield, ast.YieldFrom)) for y in own_nodes(g.node))]
+                if gs:
+                    g = gs[0]
+                    bad = None
+                    for y in own_nodes(g.node):
+                        if not isinstance(y, ast.Yield):
+                            continue
+                        child = y
+                        for q in parents(y):
+                            if isinstance(q, ast.FunctionDef):
+                                break
+                            if isinstance(q, ast.Try) and any(child is b or any(z is child for z in ast.walk(b)) for b in q.body):
+                                for h in q.handlers:
+                                    if not (h.body and isinstance(h.body[-1], ast.Raise)):
+                                        bad = h
+                            child = q
+                    if bad is not None:
+                        rep.violation(rid, key, 'the generator manager %s catches what is thrown in at its yield and does not raise again: '
+                                      'the failure of the compile is swallowed' % g.qname, g.loc(bad))
+                    else:
+                        rep.ok(rid, key, 'generator manager %s: every handler around the yield raises' % g.qname, g.loc())
+                    continue
+                rep.ok(rid, key, 'library manager (not suppress)', f.loc(p))
+    rep.ok(rid, 'managers', '%d manager(s) open around the compile call' % nman, None)
+
+
 def rule_visitor_dispatch(em, rep, rid):
     """G4 (informational): visit methods whose shape dispatch can fall through"""
     vis = em.repo.cls('yp_prolog_visitor', 'YPPrologVisitor')
